@@ -48,6 +48,10 @@ def install():
                 lab = rec.handler_label.get((id(self), id(handler)))
                 if lab is not None:
                     rec.exec_owner[(self.name, rec.eid(event), lab)] = rec.par_owner.get((self.name, rec.eid(event)), '?')
+                    if not (hasattr(handler, '__self__') and isinstance(handler.__self__, S.EventBus)):
+                        # activations are numbered when execute_handler is entered (the model numbers them when the handler task is created)
+                        rec.nact += 1
+                        rec.pre_act[(self.name, rec.eid(event), lab)] = rec.nact
             return await orig(self, event, handler, timeout=timeout)
         return execute_handler
 
@@ -164,6 +168,7 @@ def attach(rec):
     rec.par_owner = {}
     rec.wal_opened = {}
     rec.wal_cur = {}
+    rec.pre_act = {}
     if _real_open_file is None and hasattr(S, 'anyio'):
         _real_open_file = S.anyio.open_file
         S.anyio.open_file = _fake_open_file
